@@ -18,7 +18,8 @@ BODY = {
   "provideVars": {..}, "provideDeps": [pkg...], "provideTools": {t: {"path": p, "libs": [..], "environment": {..}}},
   "steps": { "checkout"|"build"|"package": {"setup": fid|None, "script": fid|None, "finalize": fid|None,
              "vars": [..], "varsWeak": [..], "tools": [..], "toolsWeak": [..]} },
-  "checkoutDeterministic": bool, "import": bool, "shared": bool, "relocatable": bool|None, "tooldirs": bool, "fp": bool
+  "checkoutDeterministic": bool, "import": bool, "importPrune": bool, "urlfile": bool (file src/<recipe>/u.txt fetched by a
+  url SCM with digest), "shared": bool, "relocatable": bool|None, "tooldirs": bool, "fp": bool
 }
 Scripts are never stored as text: a fragment is an id expanded by vlib.scripts.recorder().
 """
@@ -136,6 +137,12 @@ def body_yaml(body, model, recipe_name):
     if body.get("checkoutDeterministic"): out["checkoutDeterministic"] = True
     if body.get("import"):
         out["checkoutSCM"] = [{"scm": "import", "url": "src/" + recipe_name, "dir": "imp", "prune": bool(body.get("importPrune", True))}]
+    if body.get("urlfile"):
+        # a deterministic SCM: local file with digest (the digest follows the content, as a version bump in a recipe does)
+        import hashlib
+        data = (model.get("files") or {}).get(recipe_name + "/u.txt", "").encode()
+        out.setdefault("checkoutSCM", []).append({"scm": "url", "url": "src/%s/u.txt" % recipe_name, "dir": "url",
+                                                  "digestSHA1": hashlib.sha1(data).hexdigest()})
     for k in ("buildNetAccess", "packageNetAccess", "jobServer"):
         if body.get(k) is not None: out[k] = body[k]
     if body.get("auditFiles"): out["packageAuditFiles"] = dict(body["auditFiles"])
@@ -173,7 +180,7 @@ def render(model, root, clock=None):
         want["recipes/inc/" + name] = text
     for r in model["recipes"]:
         bodies = [r["body"]] + list((r.get("multi") or {}).values())
-        if any(b.get("import") for b in bodies):
+        if any(b.get("import") or b.get("urlfile") for b in bodies):
             want.setdefault("src/%s/.keep" % r["name"], "")
     clock = clock if clock is not None else model.get("clock", 0)
     t = T0 + clock * 10**9
@@ -212,7 +219,7 @@ def render(model, root, clock=None):
         os.replace(tmp, p)
     # prune empty source dirs
     for dp, dn, fn in os.walk(os.path.join(root, "src"), topdown=False):
-        if not dn and not fn and dp != os.path.join(root, "src"):
+        if dp != os.path.join(root, "src") and not os.listdir(dp):
             try: os.rmdir(dp)
             except OSError: pass
     os.makedirs(os.path.join(root, "recipes"), exist_ok=True)
@@ -263,6 +270,7 @@ def _body(draw, fid, i, n, later_pkgs, tool_providers, classes, richness, dense=
     b["import"] = draw(st.integers(0, 3)) == 0
     if b["import"]:
         b["importPrune"] = draw(st.sampled_from([True, False, True]))
+    b["urlfile"] = draw(st.integers(0, 4)) == 0
     if classes:
         b["inherit"] = draw(st.lists(st.sampled_from(sorted(classes)), max_size=2, unique=True))
     b["environment"] = _env_st(draw)
@@ -339,7 +347,8 @@ def model_st(min_recipes=2, max_recipes=7, richness=1, multi=True, dense=False):
         names, multis = [], []
         for i in range(n):
             names.append("r%d" % i)
-            multis.append(["a", "b"] if (multi and i and draw(st.integers(0, 5)) == 0) else None)
+            multis.append((["a", "b", "c"] if draw(st.integers(0, 2)) == 0 else ["a", "b"])
+                          if (multi and i and draw(st.integers(0, 5)) == 0) else None)
         pkgs_of = [["r%d-%s" % (i, k) for k in multis[i]] if multis[i] else ["r%d" % i] for i in range(n)]
         # tool providers: some later recipes
         tool_providers = []
@@ -368,7 +377,7 @@ def model_st(min_recipes=2, max_recipes=7, richness=1, multi=True, dense=False):
                 for k in multis[i]:
                     mb = {"depends": [], "environment": _env_st(draw, 1), "steps": {}, "privateEnvironment": {}, "metaEnvironment": {},
                           "provideVars": {}, "provideDeps": [], "provideTools": {}}
-                    if k == "b" and draw(st.booleans()):
+                    if k != "a" and draw(st.booleans()):
                         mb["steps"] = {"build": {"setup": None, "script": fid(), "finalize": None, "vars": [], "varsWeak": [], "tools": [], "toolsWeak": []}}
                     if later and draw(st.booleans()):
                         mb["depends"] = [{"name": draw(st.sampled_from(later)), "use": None, "forward": False, "env": {}, "if": None,
@@ -377,6 +386,8 @@ def model_st(min_recipes=2, max_recipes=7, richness=1, multi=True, dense=False):
             recipes[i] = {"name": names[i], "body": body, "multi": multi_b}
         files = {}
         for i in range(n):
+            if recipes[i]["body"].get("urlfile"):
+                files["r%d/u.txt" % i] = "url content %d\n" % fid()
             if recipes[i]["body"]["import"]:
                 for fn in draw(st.lists(st.sampled_from(["a.txt", "sub/c.txt", "b.txt", "sub/deep/d.txt"]), min_size=1, max_size=3, unique=True)):
                     files["r%d/%s" % (i, fn)] = "content %d\n" % fid()
@@ -558,11 +569,13 @@ def apply_edit(model, edit, history):
         sp["tools"] = [avail[c % len(avail)]]
         return m, "%s use tool %s in %s" % (lab, sp["tools"], step)
     if kind in ("file_mod", "file_add", "file_del"):
-        imps = [r["name"] for r in m["recipes"] if r["body"].get("import")]
+        imps = [r["name"] for r in m["recipes"] if r["body"].get("import") or r["body"].get("urlfile")]
         if not imps: return m, "noop"
         rn = imps[a % len(imps)]
         mine = sorted(k for k in m["files"] if k.startswith(rn + "/"))
         if kind == "file_add":
+            if not next(r for r in m["recipes"] if r["name"] == rn)["body"].get("import"):
+                return m, "noop"
             fn = "%s/%s" % (rn, ["a.txt", "b.txt", "sub/c.txt", "d.txt", "sub/e.txt"][b % 5])
             m["files"][fn] = "content %d\n" % newfid()
             return m, "write %s" % fn
@@ -570,7 +583,7 @@ def apply_edit(model, edit, history):
         fn = mine[b % len(mine)]
         if kind == "file_del":
             owner = next(r for r in m["recipes"] if r["name"] == rn)
-            if not owner["body"].get("importPrune", True):
+            if not owner["body"].get("importPrune", True) or fn.endswith("/u.txt"):
                 return m, "noop"            # without prune deleted files legitimately stay in the workspace
             del m["files"][fn]
             return m, "delete %s" % fn
